@@ -61,6 +61,8 @@ def enc_v1(rng):
 
     def ip6():
         return rng.choice(['::', '::1', 'ffff:ffff:ffff:ffff:ffff:ffff:ffff:ffff',
+                           '::ffff:192.0.2.%d' % rng.randrange(256),
+                           '::10.1.2.%d' % rng.randrange(256),
                            '2001:db8::%x' % rng.randrange(65536),
                            ':'.join('%x' % rng.randrange(65536)
                                     for _ in range(8))])
@@ -129,8 +131,13 @@ def _ip6_strict(b):
         s = b.decode('ascii')
     except UnicodeDecodeError:
         return 'invalid'
-    if '%' in s or '.' in s:
-        return 'ambiguous'
+    if '%' in s:
+        return 'invalid'        # no zone identifiers in a PROXY header
+    if '.' in s:
+        # an embedded dotted quad (IPv4-mapped / -compatible form)
+        r = _ip4_strict(s.rsplit(':', 1)[-1].encode('ascii'))
+        if r in ('invalid', 'ambiguous'):
+            return r
     try:
         return ipaddress.IPv6Address(s)
     except ValueError:
@@ -256,6 +263,11 @@ def gen_conn(rng, mixin):
             b'PROXY TCP5 1.2.3.4 5.6.7.8 1 2\r\n',
             b'PROXY TCP6 1.2.3.4 5.6.7.8 1 2\r\n',
             b'PROXY TCP4 ::1 ::1 1 2\r\n',
+            b'PROXY TCP6 fe80::1%eth0 ::1 1 2\r\n',
+            b'PROXY TCP6 2001:db8::%2 ::1 1 2\r\n',
+            b'PROXY TCP6 ::1 fe80::1%1 1 2\r\n',
+            b'PROXY TCP6 ::ffff:1.2.3 ::1 1 2\r\n',
+            b'PROXY TCP6 ::ffff:1.2.3.256 ::1 1 2\r\n',
             b'PROXY  TCP4 1.2.3.4 5.6.7.8 1 2\r\n',
             b'proxy TCP4 1.2.3.4 5.6.7.8 1 2\r\n',
             b'PROXY TCP4 1.2.3.4 5.6.7.8 1 2\n',
